@@ -65,7 +65,7 @@ static void mutate (MEMF *m, const CORP *base, char *desc, size_t dlen)
 /* systematic chunk mutations.  The chunks of the header are found by WALKING the container's chunk list (RIFF/RIFX/RF64 32-bit
 ** little/big-endian sizes, IFF/AIFF big-endian with even padding, CAF 64-bit big-endian, W64 GUID + 64-bit little-endian), so that text
 ** inside a chunk is not mistaken for a chunk; containers without such a list fall back to every printable 4-character tag at an even offset.
-** mutation 'kind' (16 kinds) of chunk 'idx'; returns 0 when idx is past the last chunk found in the first 'span' bytes. */
+** mutation 'kind' (20 kinds) of chunk 'idx'; returns 0 when idx is past the last chunk found in the first 'span' bytes. */
 typedef struct { long at, szoff ; int big ; } CHUNKPOS ;
 static uint64_t get64 (const unsigned char *p, int big) { return big ? ((uint64_t) get32 (p, 1) << 32 | get32 (p + 4, 1)) : ((uint64_t) get32 (p + 4, 0) << 32 | get32 (p, 0)) ; }
 static int walk_chunks (const CORP *base, long span, CHUNKPOS *out, int max)
@@ -104,7 +104,9 @@ static int mutate_marker (MEMF *m, const CORP *base, int idx, int kind, long spa
 		case 4 : put32 (m->d + so, (uint32_t) (m->len - found), big) ; break ;
 		case 5 : m->d [found] = 'z' ; m->d [found + 1] = 'Z' ; break ;			/* unknown chunk id */
 		case 6 : put32 (m->d + so, 0xfffffff0u, big) ; break ;
-		default : m->len = found + 8 + ((kind & 1) ? 3 : 0) ; if (m->len > base->len) m->len = base->len ; break ;			/* file ends inside this chunk */
+		case 7 : m->len = found + 8 + ((kind & 1) ? 3 : 0) ; if (m->len > base->len) m->len = base->len ; break ;			/* file ends inside this chunk */
+		case 8 : m->d [found] = 'z' ; m->d [found + 1] = 'Z' ; put32 (m->d + so, 0xfffffff0u, big) ; break ;	/* unknown id AND a size that wraps 32-bit bounds checks */
+		default : m->d [found] = 'z' ; m->d [found + 1] = 'Z' ; put32 (m->d + so, 0xfffffff8u + (uint32_t) (kind & 1) * 5, cp [idx].big < 0 ? 0 : cp [idx].big) ; break ;
 		}
 	snprintf (desc, dlen, "chunk#%d(%.4s)@%ld kind %d", idx, base->d + found, found, kind) ;
 	return 1 ;
@@ -122,6 +124,6 @@ static int mutate_field (MEMF *m, const CORP *base, int idx, int kind, long span
 	snprintf (desc, dlen, "u32@%ld=0x%x%s", off, vals [kind >> 1], (kind & 1) ? "BE" : "LE") ;
 	return 1 ;
 }
-#define MUTATE_MARKER_KINDS 16
+#define MUTATE_MARKER_KINDS 20
 
 #endif
